@@ -263,8 +263,20 @@ def drive_metropolis(item):
     p = 0.5
     dec = MatchingDecoder(code, em, p)
     oracle = MatchingDecoder(code, em, p)
-    sim = SplittingSimulation(code, em, [dec], [p], n_init_runs=1, verbose=False)
     script = {}
+
+    class _Generator:
+        """A generator object handed to the simulation (optional argument `rng`): the
+        step must behave the same with it.  It answers from the same script."""
+
+        def choice(self, a, size=None, replace=True, p=None):
+            return choice(a, size=size, replace=replace, p=p)
+
+        def random(self, size=None):
+            return 0.0 if script.get('coin') else float(np.nextafter(1.0, 0.0))
+
+    sim = SplittingSimulation(code, em, [dec], [p], n_init_runs=1, verbose=False,
+                              **({'rng': _Generator()} if (seed // 2) % 2 else {}))
 
     def choice(a, size=None, replace=True, p=None):
         script['calls'] = script.get('calls', 0) + 1
